@@ -425,7 +425,6 @@ func secondaryAlias(r *Run, g string, s *AliasSpec, st *aliasStats, name string,
 	}
 }
 
-
 // SquareSamples returns pointers to squares and fourth powers of the given samples (and 0, 1), computed with the
 // type's own Square method - operands for which Sqrt is defined.
 func SquareSamples(samples []any) []any {
